@@ -79,7 +79,7 @@ m = {
  "setup_cmd": "./check build",
  "hooks": {
    "guard": "none",
-   "enable": "no hooks: every seam is reachable from outside the crate (type parameters, trait objects, a substitute bxcan crate selected by the shadow manifest /verif/sim/ross-shadow/Cargo.toml, which points [lib] path at /repo/src/lib.rs)",
+   "enable": "no hooks: every seam is reachable from outside the crate (type parameters, trait objects, a substitute bxcan crate selected by the shadow manifest /verif/sim/ross-shadow/Cargo.toml, which points [lib] path at /repo/src/lib.rs; the clock seam is libc symbol interposition inside the simulator binary)",
    "baseline_off_cmd": "cd /repo && cargo test --workspace --no-fail-fast --offline",
    "source_commits": [],
    "add_only": True,
@@ -88,7 +88,7 @@ m = {
    "name": "rosssim",
    "path": "/verif/sim",
    "serves_properties": sorted(CHECKS),
-   "kind_free_text": "single-process deterministic simulator: decision tape (one seed decides every schedule choice, fault and generated operation), simulated CAN/USART/serial-port devices and wire, scripted link under Protocol, counting allocator, reference models as oracles, in-process tape shrinking, fresh-process replay",
+   "kind_free_text": "single-process deterministic simulator: decision tape (one seed decides every schedule choice, fault and generated operation), simulated CAN/USART/serial-port devices and wire, scripted link under Protocol, counting allocator, interposed process clock (clock_gettime / nanosleep answer from simulated time while control is inside the library), reference models as oracles, in-process tape shrinking, fresh-process replay",
  }],
  "checks": [],
  "not_applicable": [],
